@@ -121,7 +121,15 @@ func (s *selectForUpdateExecutor) ExecContext(ctx context.Context, f exec.Callba
 			err = bf.Err()
 		}
 		// if there is an err in doExecContext, we should rollback first
-		if s.savepointName != "" {
+		if originalAutoCommit && s.tx != nil {
+			// the local transaction was begun here for an autocommit connection: end it as a whole (a
+			// retry may have put a savepoint into it, rolling back to that would leave it open)
+			if rollerr := s.tx.Rollback(); rollerr != nil {
+				log.Error("rollback failed, err %s", rollerr.Error())
+				return nil, err
+			}
+			s.execContext.IsAutoCommit = true
+		} else if s.savepointName != "" {
 			if _, rollerr := s.exec(ctx, fmt.Sprintf("rollback to %s;", s.savepointName), nil, nil); rollerr != nil {
 				log.Error("rollback to %s failed, err %s", s.savepointName, rollerr.Error())
 				return nil, err
